@@ -41,7 +41,8 @@ class C02(Spec):
         'modelled, not verified: ndarray slicing/np.concatenate/np.zeros semantics in pop_buffer; the generator '
         'protocol (reset/next/n_samples_remaining/is_complete) of stim factories is modelled as "a waveform of '
         'n_samples() samples consumed front to back" (chunk invariance of the factories themselves is C01)',
-        'zero-length waveforms are outside the model (driver refuses them); pop_buffer(decrement=False) is not modelled',
+        'zero-length waveforms are outside the model (driver refuses them); pop_buffer(decrement=False) is modelled '
+        '(popBufferND) for the correspondence only, no theorem covers it',
         'the model follows queue.py with notes/C03_fix_1.diff and notes/C04_fix_*.diff applied',
     ]
     ASSUMPTIONS = ['every stimulus has at least one sample', 'delays are >= 0 (negative: ValueError, checked)',
@@ -49,6 +50,12 @@ class C02(Spec):
     RULE = ('histories of pop_buffer sizes over every policy, fs in the RZ6/integer list, start offsets on and off '
             'the grid, array / FixedWaveform / Cos2Envelope(Tone) sources; boundary stream: request boundaries at '
             'every waveform start/end and delay end, -1/0/+1; each case is also compared with its one-chunk run. '
+            'Half of the random cases are re-spelled by the caller (constructor routes incl. set_fs / registry / positional, '
+            'extend() with broadcast scalars and tuple/ndarray containers, NumPy-typed fs/t0/n/trials, delays as None / '
+            'scalar / generator / finite list / ndarray, metadata, explicit duration=, float32/int/strided source arrays, '
+            'a clone() of the loaded queue, a bystander queue fed with the same source objects, a caller that overwrites '
+            'every array it passed in or got back); plus requests with decrement=False, stimuli appended while running, '
+            'waveforms >= 2^16 samples fetched in 1..65536-sample requests, start offsets beyond 2^31 samples. '
             'Non-trivial = at least two trials notified and at least two requests.')
     SEARCH_SECONDS = {'quick': 20, 'thorough': 240}
 
@@ -228,7 +235,10 @@ class C02(Spec):
         for s in tr.steps:
             emitted += s['n_out']
             if s['ts'] != emitted or not s['ts_exact']:
-                return f"clock get_ts()*fs = {s['ts']} after {emitted} samples"
+                return (f"clock get_ts()*fs = {s['ts']}{'' if s['ts_exact'] else ' (not exactly: get_ts() != n/fs)'} "
+                        f"after {emitted} samples")
+            if s.get('aliased'):
+                return f"{s['op']} changed the buffer returned by an earlier request"
         if tr.added2 != [a[:2] for a in tr.added]:
             return f'a second "added" consumer saw {tr.added2[:6]}, the first {[a[:2] for a in tr.added][:6]}'
         # chunk invariance against the run with all adjacent requests merged into one
